@@ -207,6 +207,31 @@ func run(c *core.Ctx) {
 					outcome = "ORDER"
 					c.Violate(core.Violation{Kind: "oracle", Entry: "rotate.Key", Site: "destroy-before-record", Gen: gname, Case: idx, Detail: ov, Witness: wit})
 				}
+				// an operator's first reaction: run the same rotation again, fault-free, WITHOUT permission to overwrite
+				// (plainly, or with --keep_going). It may be refused because of leftovers — that is one more failed rotation,
+				// after which the recorded primary must still be usable and nothing may have been destroyed ahead of a record.
+				if retry := (k/3 + k) % 3; injected && retry != 0 {
+					ro := authority.Opts{KeepGoing: retry == 1}
+					fr := &doubles.FCtl{}
+					_, rr := a.Rotate(fr, ro, skc(2))
+					c.Eval(1)
+					c.Count(fmt.Sprintf("retries-without-overwrite/keep_going=%v/refused=%v", ro.KeepGoing, rr != nil), 1)
+					if rr != nil && p0.long {
+						a.DropLongLived()
+					}
+					wit["retry_keep_going"], wit["retry_error"], wit["retry_log"] = ro.KeepGoing, fmt.Sprint(rr), fr.Log
+					if h := a.Health(); h != "" {
+						outcome = "UNHEALTHY-AFTER-RETRY"
+						c.Violate(core.Violation{Kind: "oracle", Entry: "rotate.Key", Site: "primary-unusable-after-retry-without-overwrite", Gen: gname, Case: idx,
+							Detail: fmt.Sprintf("after %s, the rotation was run again fault-free with keep_going=%v overwrite=false (returned %v): %s", fc.desc, ro.KeepGoing, rr, h), Witness: wit})
+						c.End(idx)
+						continue
+					}
+					if ov := orderViolation(fr.Log, a.CA); ov != "" {
+						outcome = "ORDER"
+						c.Violate(core.Violation{Kind: "oracle", Entry: "rotate.Key", Site: "destroy-before-record", Gen: gname + " retry", Case: idx, Detail: ov, Witness: wit})
+					}
+				}
 				// a later fault-free rotation allowed to overwrite leftovers must succeed
 				f2 := &doubles.FCtl{}
 				if _, err := a.Rotate(f2, authority.Opts{Overwrite: true}, skc(3)); err != nil {
